@@ -44,3 +44,30 @@ Proof.
   intros [c n d] p. unfold TAP003_progress_kill_chain, k_step, SUCCEEDED, NOT_STARTED. cbn.
   destruct (n =? 5); [reflexivity|]. destruct (n =? 200); reflexivity.
 Qed.
+
+(* ---- transfer ---------------------------------------------------------------------------------------------------------- *)
+From PV Require Import Proofs.ScriptedProofs.
+
+(* whatever answer other than "success" the previous request got (failure, unreachable, pending), the translated
+   _tap_return_handler reports it and leaves the stage where it was (stages repeated) or fails the chain -- never forwards *)
+Theorem source_unsuccessful_response_never_advances : forall hl status rs cur t, 0 <= t < hl -> status <> 1 ->
+  AbstractTAP_tap_return_handler hl status rs cur t = (false, if rs then cur else 300).
+Proof.
+  intros hl status rs cur t Ht Hs. unfold AbstractTAP_tap_return_handler.
+  replace (t >=? hl) with false by lia. replace (status =? 1) with false by (symmetry; apply Z.eqb_neq; exact Hs).
+  destruct rs; reflexivity.
+Qed.
+(* the translated _progress_kill_chain of both threat actors moves a well-formed chain only to the next stage, or from the last
+   stage to SUCCEEDED, and keeps it well formed *)
+Theorem source_progress_is_in_stage_order : forall s p, kwf 6 s -> k_cur s <> FAILED -> k_cur s <> SUCCEEDED ->
+  let '(_, (c, n, _)) := TAP001_progress_kill_chain (k_next s) (k_cur s) p in
+  kmove 6 (k_cur s) c /\ kwf 6 {| k_cur := c; k_next := n; k_done := k_done s |}.
+Proof.
+  intros s p W H1 H2. rewrite gen_tap001_progress.
+  assert (Hl : 2 <= 6 < NOT_STARTED) by (unfold NOT_STARTED; lia).
+  assert (Hk : k_cur s = FAILED \/ k_cur s = SUCCEEDED -> KProgress <> KProgress) by (intros [A|A]; contradiction).
+  destruct (kill_chain_order 6 s KProgress Hl W Hk) as [M K].
+  split; [exact M|]. specialize (K ltac:(discriminate) H1).
+  destruct (k_step 6 s KProgress) as [c n d] eqn:E. cbn [k_cur k_next] in *.
+  unfold kwf in *. cbn [k_cur k_next] in *. exact K.
+Qed.
